@@ -61,6 +61,8 @@ fn setup(s: &J) -> Result<(Setup, J), csl::JsError> {
         tb.add_output(&out)?;
         outs.push(jvalue(&val));
     }
+    // a fee floor requested by the caller (set_min_fee): "mf": lovelace above the fee of the builder as it stands
+    if let Some(mf) = s.get("mf").and_then(|x| x.as_u64()) { if mf > 0 { let base: u64 = tb.min_fee()?.into(); tb.set_min_fee(&csl::BigNum::from(base + mf)); } }
     // an implicit input (reward withdrawal): lovelace the builder holds without any UTxO
     if let Some(w) = s.get("wd").and_then(|x| x.as_u64()) { if w > 0 {
         let mut wd = csl::Withdrawals::new();
@@ -192,11 +194,28 @@ fn gen_token_split(rng: &mut Rng) -> J {
     if rng.chance(1, 2) { utxos.swap(ib, n - 1); }
     let (wd, pre): (u64, Vec<J>) = match rng.below(3) { 0 => (10, vec![]), 1 => (0, vec![json!(10)]), _ => (0, vec![]) };
     json!({"strat": strat, "mode": "explore", "unit": 1_000_000, "a": 44, "b": 155381, "cpb": 0, "wd": wd,
-           "utxos": utxos, "outs": [{"c": 2, "assets": tok(need)}], "pre": pre, "distinct_addrs": false, "max_leaves": 1500})
+           // the output's coin is sometimes more than the token carriers bring: the lovelace pass has to go on after the token pass
+           "utxos": utxos, "outs": [{"c": 2 + rng.below(5), "assets": tok(need)}], "pre": pre, "distinct_addrs": false, "max_leaves": 1500})
+}
+
+/// two tokens, several carriers each with different quantities (some carry both): a per-asset pass consumes only some carriers
+/// and a later pass still needs more
+fn gen_two_tokens(rng: &mut Rng) -> J {
+    let strat = *rng.pick(&["LargestFirstMultiAsset", "RandomImproveMultiAsset"]);
+    let n = 3 + rng.below(3) as usize;
+    let a = |q: u64| json!({"p": [1], "n": [7], "q": q});
+    let b = |q: u64| json!({"p": [2], "n": [], "q": q});
+    let utxos: Vec<J> = (0..n).map(|_| { let mut assets = vec![]; if rng.chance(2, 3) { assets.push(a(1 + rng.below(6))); } if rng.chance(1, 2) { assets.push(b(1 + rng.below(6))); }
+        if assets.is_empty() { json!(1 + rng.below(3)) } else { json!({"c": 1 + rng.below(3), "assets": assets}) } }).collect();
+    let mut want = vec![a(2 + rng.below(8))];
+    if rng.chance(2, 3) { want.push(b(1 + rng.below(8))); }
+    json!({"strat": strat, "mode": "explore", "unit": 1_000_000, "a": 44, "b": 155381, "cpb": 0, "wd": if rng.chance(1, 4) { 10 } else { 0 },
+           "utxos": utxos, "outs": [{"c": 1 + rng.below(3), "assets": want}], "pre": if rng.chance(1, 3) { vec![json!(2)] } else { vec![] }, "distinct_addrs": false, "max_leaves": 1500})
 }
 
 fn gen(rng: &mut Rng) -> J {
     if rng.chance(1, 6) { return gen_token_split(rng); }
+    if rng.chance(1, 6) { return gen_two_tokens(rng); }
     let strat = *rng.pick(&["LargestFirst", "RandomImprove", "LargestFirstMultiAsset", "RandomImproveMultiAsset"]);
     let multi = strat.ends_with("MultiAsset");
     let nu = 1 + rng.below(6);
@@ -215,7 +234,7 @@ fn gen(rng: &mut Rng) -> J {
     // sometimes a withdrawal already covers (part of) the lovelace need, so that only assets - or nothing - remain to be selected
     let wd = if rng.chance(1, 4) { 1 + rng.below(12) } else { 0 };
     json!({"strat": strat, "mode": "explore", "unit": unit, "a": *rng.pick(&[44u64, 44, 0, 500]), "b": 155381, "cpb": 0,
-           "utxos": utxos, "outs": outs, "pre": pre, "wd": wd, "distinct_addrs": rng.chance(1, 3), "max_leaves": 1500})
+           "utxos": utxos, "outs": outs, "pre": pre, "wd": wd, "mf": if rng.chance(1, 5) { 1 + rng.below(9000) } else { 0 }, "distinct_addrs": rng.chance(1, 3), "max_leaves": 1500})
 }
 
 pub fn main(a: &Args) {
